@@ -196,21 +196,16 @@ func concMain(mode string, a args) {
 		// N goroutines x iterations on shared parser graphs (success and failure inputs), plus concurrent construction
 		wls := concWorkloads()
 		G, iters := a.num("goroutines", 8), a.num("iters", 40)
-		solo := map[string][]J{}
-		for _, w := range wls {
-			for _, in := range w.inputs {
-				solo[w.name] = append(solo[w.name], concObserve(w.p, w.eval, in))
-			}
-		}
+		// the concurrent phase runs COLD (nothing of the library has been used in this process before: lazily
+		// initialised state is initialised under contention); the solo observations are taken afterwards
 		var wg sync.WaitGroup
 		// parsers constructed concurrently are later combined into ONE grammar: every Memoize must have got its own identity
 		const fragsPer = 64
 		startAll := make(chan struct{})
 		frags := make([][]parsley.Parser, G)
-		conc := make([]map[string][]J, G)
-		bad := make([]map[string]bool, G)
+		seen := make([]map[string][][]J, G) // per goroutine and workload: the distinct observation lists (at most 4)
 		for g := 0; g < G; g++ {
-			conc[g], bad[g] = map[string][]J{}, map[string]bool{}
+			seen[g] = map[string][][]J{}
 			wg.Add(1)
 			go func(g int) {
 				defer wg.Done()
@@ -224,26 +219,50 @@ func concMain(mode string, a args) {
 						for _, in := range w.inputs {
 							obs = append(obs, concObserve(w.p, w.eval, in))
 						}
-						// keep the first differing iteration (or the last one)
-						if !eqJSON(obs, solo[w.name]) && !bad[g][w.name] {
-							bad[g][w.name] = true
-							conc[g][w.name] = obs
-						} else if !bad[g][w.name] {
-							conc[g][w.name] = obs
+						known := false
+						for _, q := range seen[g][w.name] {
+							known = known || eqJSON(q, obs)
+						}
+						if !known && len(seen[g][w.name]) < 4 {
+							seen[g][w.name] = append(seen[g][w.name], obs)
 						}
 					}
-					// construction of new parser graphs while the others parse (Memoize takes a fresh index)
+					// construction of new parser graphs while the others parse (Memoize takes a fresh index, a regular
+					// expression nobody has used before is compiled), used at once
 					q := combinator.Memoize(combinator.Any(terminal.Rune('a'), terminal.Op("ab")))
 					concObserve(combinator.Sentence(q), false, "ab")
+					rx := terminal.Regexp("r", "ID", "identifier", fmt.Sprintf("k%dx%d[a-z]+", g, it), 0)
+					if ob := concObserve(combinator.Sentence(rx), true, fmt.Sprintf("k%dx%dab", g, it)); ob["val"] != fmt.Sprintf("k%dx%dab", g, it) && len(seen[g]["fresh-regexp"]) < 2 {
+						seen[g]["fresh-regexp"] = append(seen[g]["fresh-regexp"], []J{ob})
+					}
 					_ = arithParser()
 				}
 			}(g)
 		}
 		close(startAll)
 		wg.Wait()
+		solo := map[string][]J{}
+		for _, w := range wls {
+			for _, in := range w.inputs {
+				solo[w.name] = append(solo[w.name], concObserve(w.p, w.eval, in))
+			}
+		}
 		for g := 0; g < G; g++ {
 			for _, w := range wls {
-				o.put(J{"ev": "run", "g": g, "wl": w.name, "mode": "free", "sched": []int{}, "solo": solo[w.name], "conc": conc[g][w.name]})
+				conc := solo[w.name]
+				if len(seen[g][w.name]) > 0 {
+					conc = seen[g][w.name][0]
+				}
+				for _, q := range seen[g][w.name] {
+					if !eqJSON(q, solo[w.name]) {
+						conc = q
+						break
+					}
+				}
+				o.put(J{"ev": "run", "g": g, "wl": w.name, "mode": "free", "sched": []int{}, "solo": solo[w.name], "conc": conc})
+			}
+			for _, q := range seen[g]["fresh-regexp"] {
+				o.put(J{"ev": "run", "g": g, "wl": "fresh-regexp", "mode": "free", "sched": []int{}, "solo": []J{{"in": q[0]["in"], "val": q[0]["in"], "err": "<nil>", "calls": q[0]["calls"]}}, "conc": q})
 			}
 		}
 		var all []parsley.Parser
